@@ -778,7 +778,7 @@ struct Budget {
 fn budget(tier: Tier) -> Budget {
     match tier {
         Tier::Quick => Budget { scenarios: driver::scale(640), schedules: 24, free_runs: 8, hammer_bursts: 6 },
-        Tier::Thorough => Budget { scenarios: driver::scale(16000), schedules: 96, free_runs: 24, hammer_bursts: 12 },
+        Tier::Thorough => Budget { scenarios: driver::scale(32000), schedules: 96, free_runs: 24, hammer_bursts: 12 },
     }
 }
 
